@@ -18,6 +18,7 @@ from liquid2.builtin import Identifier
 from liquid2.builtin import parse_parameters
 from liquid2.builtin import parse_positional_and_keyword_arguments
 from liquid2.builtin import parse_string_or_identifier
+from liquid2.builtin import string_or_identifier_str
 from liquid2.undefined import Undefined
 from liquid2.undefined import is_undefined
 
@@ -69,8 +70,9 @@ class MacroNode(Node):
     def __str__(self) -> str:
         assert isinstance(self.token, TagToken)
         args = " " + ", ".join(str(p) for p in self.args.values()) if self.args else ""
+        name = string_or_identifier_str(self.name)
         return (
-            f"{{%{self.token.wc[0]} macro {self.name}{args} {self.token.wc[1]}%}}"
+            f"{{%{self.token.wc[0]} macro {name}{args} {self.token.wc[1]}%}}"
             f"{self.block}"
             f"{{%{self.end_tag_token.wc[0]} endmacro {self.end_tag_token.wc[1]}%}}"
         )
@@ -150,7 +152,8 @@ class CallNode(Node):
         args = " " + ", ".join(
             [*(str(arg) for arg in self.args), *(str(arg) for arg in self.kwargs)]
         )
-        return f"{{%{self.token.wc[0]} call {self.name}{args} {self.token.wc[1]}%}}"
+        name = string_or_identifier_str(self.name)
+        return f"{{%{self.token.wc[0]} call {name}{args} {self.token.wc[1]}%}}"
 
     def render_to_output(self, context: RenderContext, buffer: TextIO) -> int:
         """Render the node to the output buffer."""
